@@ -60,48 +60,58 @@ fn p32(b: &mut Vec<u8>, v: u32) {
     b.extend_from_slice(&v.to_be_bytes());
 }
 
+/// the glyf record of one synthetic glyph (empty for a glyph without points)
+pub fn glyph_record(g: &Glyph) -> Vec<u8> {
+    let mut glyf = vec![];
+    if g.points.is_empty() {
+        return glyf;
+    }
+    pi16(&mut glyf, g.ends.len() as i16);
+    let xs: Vec<i16> = g.points.iter().map(|p| p.0).collect();
+    let ys: Vec<i16> = g.points.iter().map(|p| p.1).collect();
+    pi16(&mut glyf, *xs.iter().min().unwrap());
+    pi16(&mut glyf, *ys.iter().min().unwrap());
+    pi16(&mut glyf, *xs.iter().max().unwrap());
+    pi16(&mut glyf, *ys.iter().max().unwrap());
+    for e in &g.ends {
+        p16(&mut glyf, *e);
+    }
+    p16(&mut glyf, g.instructions.len() as u16);
+    glyf.extend_from_slice(&g.instructions);
+    for p in &g.points {
+        glyf.push(if p.2 { 1 } else { 0 });
+    }
+    // long x / y deltas
+    let mut prev = 0i16;
+    for x in &xs {
+        pi16(&mut glyf, x.wrapping_sub(prev));
+        prev = *x;
+    }
+    prev = 0;
+    for y in &ys {
+        pi16(&mut glyf, y.wrapping_sub(prev));
+        prev = *y;
+    }
+    glyf
+}
+
 pub fn build(spec: &Spec) -> Vec<u8> {
-    let n = spec.glyphs.len();
-    // glyf + loca (long)
+    let records: Vec<Vec<u8>> = spec.glyphs.iter().map(glyph_record).collect();
+    let max_points = spec.glyphs.iter().map(|g| g.points.len()).max().unwrap_or(0) as u16;
+    let max_contours = spec.glyphs.iter().map(|g| g.ends.len()).max().unwrap_or(0) as u16;
+    let max_ins = spec.glyphs.iter().map(|g| g.instructions.len()).max().unwrap_or(0);
+    build_records(spec, &records, max_points, max_contours, max_ins, (0, 0, 0, 0))
+}
+
+/// a font from hand-made glyf records (no validation whatsoever); `comp` = maxp
+/// (maxCompositePoints, maxCompositeContours, maxComponentElements, maxComponentDepth)
+pub fn build_records(spec: &Spec, records: &[Vec<u8>], max_points: u16, max_contours: u16, max_ins: usize, comp: (u16, u16, u16, u16)) -> Vec<u8> {
+    let n = records.len();
     let mut glyf = vec![];
     let mut loca = vec![];
-    let mut max_points = 0u16;
-    let mut max_contours = 0u16;
-    let mut max_ins = 0usize;
-    for g in &spec.glyphs {
+    for r in records {
         p32(&mut loca, glyf.len() as u32);
-        if g.points.is_empty() {
-            continue;
-        }
-        max_points = max_points.max(g.points.len() as u16);
-        max_contours = max_contours.max(g.ends.len() as u16);
-        max_ins = max_ins.max(g.instructions.len());
-        pi16(&mut glyf, g.ends.len() as i16);
-        let xs: Vec<i16> = g.points.iter().map(|p| p.0).collect();
-        let ys: Vec<i16> = g.points.iter().map(|p| p.1).collect();
-        pi16(&mut glyf, *xs.iter().min().unwrap());
-        pi16(&mut glyf, *ys.iter().min().unwrap());
-        pi16(&mut glyf, *xs.iter().max().unwrap());
-        pi16(&mut glyf, *ys.iter().max().unwrap());
-        for e in &g.ends {
-            p16(&mut glyf, *e);
-        }
-        p16(&mut glyf, g.instructions.len() as u16);
-        glyf.extend_from_slice(&g.instructions);
-        for p in &g.points {
-            glyf.push(if p.2 { 1 } else { 0 });
-        }
-        // long x / y deltas
-        let mut prev = 0i16;
-        for x in &xs {
-            pi16(&mut glyf, x.wrapping_sub(prev));
-            prev = *x;
-        }
-        prev = 0;
-        for y in &ys {
-            pi16(&mut glyf, y.wrapping_sub(prev));
-            prev = *y;
-        }
+        glyf.extend_from_slice(r);
         while glyf.len() % 4 != 0 {
             glyf.push(0);
         }
@@ -154,8 +164,8 @@ pub fn build(spec: &Spec) -> Vec<u8> {
     p16(&mut maxp, n as u16);
     p16(&mut maxp, max_points);
     p16(&mut maxp, max_contours);
-    p16(&mut maxp, 0);
-    p16(&mut maxp, 0);
+    p16(&mut maxp, comp.0);
+    p16(&mut maxp, comp.1);
     p16(&mut maxp, 2); // zones
     p16(&mut maxp, 8); // twilight points
     p16(&mut maxp, 16); // storage
@@ -163,8 +173,8 @@ pub fn build(spec: &Spec) -> Vec<u8> {
     p16(&mut maxp, 2); // instruction defs
     p16(&mut maxp, 256); // stack
     p16(&mut maxp, max_ins.max(spec.prep.len()).max(spec.fpgm.len()) as u16);
-    p16(&mut maxp, 0);
-    p16(&mut maxp, 0);
+    p16(&mut maxp, comp.2);
+    p16(&mut maxp, comp.3);
 
     let mut cvt = vec![];
     for v in &spec.cvt {
